@@ -1,6 +1,6 @@
 /-
   C03 — `KnowlesRTransform(rmin, R, k, trim_inf)`:
-      r(x) = -R log(1 - 2^(-k) (1+x)^k) + rmin,  (-1, 1) → (rmin, ∞),  real `k > 0`.
+      r(x) = -R log(1 - ((x+1)/2)^k) + rmin,  (-1, 1) → (rmin, ∞),  real `k > 0`.
 
   Definitions: `Gen/RTransform.lean` (regenerated from rtransform.py on every run).
   The constructor rejects `k ≤ 0` (`Admissible`).  `R ≠ 0` / `0 < R` is *not* checked by the code; the
@@ -22,8 +22,15 @@ theorem k_pos (t : KnowlesRTransform ℝ) (ht : t.Admissible) : 0 < t.k := by
   simpa [KnowlesRTransform.Admissible] using ht
 
 theorem transform_eq (t : KnowlesRTransform ℝ) :
-    t.transform = fun y => -t.R * Real.log (1 - (2 : ℝ) ^ (-t.k) * (1 + y) ^ t.k) + t.rmin := by
+    t.transform = fun y => -t.R * Real.log (1 - ((1 + y) / 2) ^ t.k) + t.rmin := by
   funext y; simp only [KnowlesRTransform.transform]; rt_norm; rw [add_comm y 1]
+
+/-- For `1 + y ≥ 0` the code's `((y+1)/2)^k` is `2^(-k) (1+y)^k` (the form the derivative methods use). -/
+theorem transform_apply (t : KnowlesRTransform ℝ) (y : ℝ) (hy : 0 ≤ 1 + y) :
+    t.transform y = -t.R * Real.log (1 - (2 : ℝ) ^ (-t.k) * (1 + y) ^ t.k) + t.rmin := by
+  rw [transform_eq]
+  simp only
+  rw [Real.div_rpow hy (by norm_num), Real.rpow_neg (by norm_num), div_eq_inv_mul]
 
 theorem deriv_eq (t : KnowlesRTransform ℝ) :
     t.deriv = fun y => t.R * t.k * (1 + y) ^ (t.k - 1) / ((2 : ℝ) ^ t.k - (1 + y) ^ t.k) := by
@@ -63,7 +70,12 @@ theorem hasDerivAt_transform (t : KnowlesRTransform ℝ) (ht : t.Admissible) (x 
     have : ((2 : ℝ) ^ t.k)⁻¹ * (1 + x) ^ t.k < 1 := by
       rw [inv_mul_lt_iff₀ hT]; linarith
     linarith
-  rw [transform_eq, deriv_eq]
+  have hev : t.transform =ᶠ[𝓝 x]
+      fun y => -t.R * Real.log (1 - (2 : ℝ) ^ (-t.k) * (1 + y) ^ t.k) + t.rmin := by
+    filter_upwards [Ioi_mem_nhds hx.1] with y hy
+    exact transform_apply t y (by simp only [Set.mem_Ioi] at hy; linarith)
+  refine HasDerivAt.congr_of_eventuallyEq ?_ hev
+  rw [deriv_eq]
   have h := (((((hasDerivAt_one_add_rpow x t.k ha).const_mul ((2 : ℝ) ^ (-t.k))).const_sub 1).log hne).const_mul
     (-t.R)).add_const t.rmin
   refine h.congr_deriv ?_
@@ -130,7 +142,7 @@ theorem inverse_transform (t : KnowlesRTransform ℝ) (ht : t.Admissible) (hR : 
     have : ((2 : ℝ) ^ t.k)⁻¹ * (1 + x) ^ t.k < 1 := by
       rw [inv_mul_lt_iff₀ hT]; linarith
     linarith
-  rw [transform_eq, inverse_eq]
+  rw [transform_apply t x ha.le, inverse_eq]
   have e1 : (t.rmin - (-t.R * Real.log (1 - (2 : ℝ) ^ (-t.k) * (1 + x) ^ t.k) + t.rmin)) / t.R
       = Real.log (1 - (2 : ℝ) ^ (-t.k) * (1 + x) ^ t.k) := by
     field_simp; ring
@@ -158,10 +170,13 @@ theorem transform_inverse (t : KnowlesRTransform ℝ) (ht : t.Admissible) (hR : 
   simp only [CoInterior, KnowlesRTransform.codomain_lo] at hr
   have hk := k_pos t ht
   obtain ⟨he0, he1⟩ := exp_bounds t hR r hr
-  rw [transform_eq, inverse_eq]
   have hu : 0 ≤ 1 - Real.exp ((t.rmin - r) / t.R) := by linarith
   have e1 : 1 + (-1 + 2 * (1 - Real.exp ((t.rmin - r) / t.R)) ^ (1 / t.k))
       = 2 * (1 - Real.exp ((t.rmin - r) / t.R)) ^ (1 / t.k) := by ring
+  have hinv : t.inverse r = -1 + 2 * (1 - Real.exp ((t.rmin - r) / t.R)) ^ (1 / t.k) := by rw [inverse_eq]
+  have h0 : 0 ≤ 1 + (-1 + 2 * (1 - Real.exp ((t.rmin - r) / t.R)) ^ (1 / t.k)) := by
+    rw [e1]; exact mul_nonneg (by norm_num) (Real.rpow_nonneg hu _)
+  rw [hinv, transform_apply t _ h0]
   have e2 : ((1 - Real.exp ((t.rmin - r) / t.R)) ^ (1 / t.k)) ^ t.k = 1 - Real.exp ((t.rmin - r) / t.R) := by
     rw [← Real.rpow_mul hu, one_div_mul_cancel hk.ne', Real.rpow_one]
   have hT : (2 : ℝ) ^ t.k ≠ 0 := (Real.rpow_pos_of_pos (by norm_num) _).ne'
@@ -217,8 +232,12 @@ the code represents the value at `x = 1` by `1e16` (trim on) or `inf`, see the c
 theorem tendsto_transform_domain_hi (t : KnowlesRTransform ℝ) (ht : t.Admissible) (hR : 0 < t.R) :
     Tendsto t.transform (𝓝[<] t.domain_hi) atTop := by
   have hk := k_pos t ht
-  rw [transform_eq]
   simp only [KnowlesRTransform.domain_hi, Nat.cast_one]
+  suffices hold : Tendsto (fun y : ℝ => -t.R * Real.log (1 - (2 : ℝ) ^ (-t.k) * (1 + y) ^ t.k) + t.rmin)
+      (𝓝[<] 1) atTop by
+    refine hold.congr' ?_
+    filter_upwards [Ioo_mem_nhdsLT (show (-1 : ℝ) < 1 by norm_num)] with y hy
+    exact (transform_apply t y (by linarith [hy.1])).symm
   apply tendsto_atTop_add_const_right
   have hT : 0 < (2 : ℝ) ^ t.k := Real.rpow_pos_of_pos (by norm_num) _
   have h1 : Tendsto (fun y : ℝ => 1 - (2 : ℝ) ^ (-t.k) * (1 + y) ^ t.k) (𝓝[<] 1) (𝓝[>] 0) := by
